@@ -70,6 +70,7 @@ class Ctx:
             "tty": knobs.get("tty", False),
             "piped_exts": knobs.get("piped_exts", ()),
             "emfile_at": knobs.get("emfile_at"),
+            "relpaths": knobs.get("relpaths", False),
         }
         if argv and argv[-1] == "-":
             # the (single) input file is fed to standard input
